@@ -251,7 +251,7 @@ def _gen_op(rng, at, knobs, live, ops=None, slots=None):
             o.pop("obs", None)
             return o
     if ops and rng.random() < knobs.get("variant_rate", 0.0):
-        cands = [i for i, o in enumerate(ops) if o["op"] in W.URLISH_OPS and o["op"] not in ("pickle", "copy", "deepcopy", "reduce", "origin", "relative", "parent")]
+        cands = [i for i, o in enumerate(ops) if o["op"] in W.URLISH_OPS and o["op"] not in ("pickle", "copy", "deepcopy", "reduce", "legacy_setstate", "origin", "relative", "parent")]
         v = W.gen_variant(rng, ops, cands)
         if v is not None:
             return v
